@@ -38,6 +38,10 @@ def sweep(arg):
     density.init(priv)
     tabs = [("public", pub), ("T1", priv)]
     evs = []
+    # a script that did 'from periodictable import *' and then switches its element names to its private table
+    ns_priv = {}
+    exec("from periodictable import *", ns_priv)
+    core.define_elements(priv, ns_priv)
 
     def L(route, T, inp, fn):
         evs.append({"ev": "L", "r": route, "T": T, "in": inp, "res": _call(fn)})
@@ -60,6 +64,9 @@ def sweep(arg):
             if T == "public":
                 L("mod", T, {"s": sym}, lambda: getattr(periodictable, sym))
                 L("mod", T, {"s": name}, lambda: getattr(periodictable, name))
+            else:
+                L("mod", T, {"s": sym}, lambda: ns_priv[sym])
+                L("mod", T, {"s": name}, lambda: ns_priv[name])
             try:
                 evs.append({"ev": "iterIso", "T": T, "z": z, "res": [iso.isotope for iso in t[z]],
                             "prop": list(t[z].isotopes)})
